@@ -97,6 +97,7 @@ func init() {
 	ker1 := E("k_e_r1")
 	addEv("k_k", false, pkP, 5, 3, []mocrelay.Tag{T("e", ker1.ID)}, "delete the deletion request k_e_r1")        // unclaimed: is k_e_r1 still served?
 	addEv("k_a0", false, pkP, 5, 3, []mocrelay.Tag{T("a", fmt.Sprintf("0:%s:", pkP))}, "delete 0:P: by address") // unclaimed: a reference to a plain replaceable kind
+	addEv("k_e_v2", false, pkP, 5, 3, []mocrelay.Tag{T("e", E("v2").ID)}, "delete the replaceable event v2 by its id (also when it arrives before v2 and an older version exists)")
 	addEv("kq_a", false, pkQ, 5, 3, []mocrelay.Tag{T("a", addrPx)}, "Q tries to delete P's address 30000:P:x")
 	addEv("k_ad", false, pkP, 5, 3, []mocrelay.Tag{T("a", fmt.Sprintf("30000:%s:", pkP))}, "delete 30000:P: (the address with the EMPTY d value, trailing colon)")
 	addEv("k_x", true, pkP, 5, 3, []mocrelay.Tag{T("e", r2.ID, "wss://relay.example"), T("a", addrPx, "wss://relay.example")}, "delete r2 and 30000:P:x with relay hints")
